@@ -77,6 +77,16 @@ pub fn gen_config(profile: &str, rng: &mut Rng, tier: Tier) -> Config {
 			chans.push(ChanSpec { a: x, b: y, value_sat, push_msat });
 		}
 	}
+	// a third link closes the triangle in a third of the runs: multi-part payments can then use
+	// two different first-hop peers, and forwards have an alternative route
+	if n_nodes == 3
+		&& matches!(profile, "forward" | "payments" | "receive" | "crash" | "asyncpersist" | "roundtrip")
+		&& r.chance(1, 3)
+	{
+		let value_sat = *r.pick(&[500_000u64, 1_000_000, 3_000_000]);
+		let (x, y) = if r.coin() { (0, 2) } else { (2, 0) };
+		chans.push(ChanSpec { a: x, b: y, value_sat, push_msat: value_sat * 1000 / 2 });
+	}
 	let mut weights = BTreeMap::new();
 	// defaults; profiles override
 	w(&mut weights, "Pump", 30);
@@ -367,6 +377,22 @@ fn gen_send(wd: &World, rng: &mut Rng) -> Option<Action> {
 			let a2 = amt / 2;
 			if a2 > 0 && amt - a2 > 0 {
 				paths.push(p2);
+				amts = vec![amt - a2, a2];
+			}
+		}
+	}
+	// MPP over two different first-hop peers (triangle topologies): direct part + part via the
+	// third node
+	if paths.len() == 1 && path.len() == 1 && rng.chance(1, 4) {
+		let via: Vec<(usize, usize, usize)> = first
+			.iter()
+			.filter(|(_, p)| *p != to)
+			.filter_map(|(c, p)| chans_of(wd, *p).into_iter().find(|(_, q)| *q == to).map(|(c2, _)| (*c, *p, c2)))
+			.collect();
+		if let Some((ca, _mid, cb)) = via.first() {
+			let a2 = amt / 2;
+			if a2 > 0 && amt - a2 > 0 {
+				paths.push(vec![*ca, *cb]);
 				amts = vec![amt - a2, a2];
 			}
 		}
